@@ -366,74 +366,68 @@ impl Sut {
             _ => {}
         }
         let store = self.store().clone();
-        let s = &*store;
-        let r = catch_unwind(AssertUnwindSafe(|| match *op {
-            Op::Get(k) => lift(s.get(&t.keys[k as usize]), Out::Bytes),
-            Op::GetBytes(k) => lift(s.get_bytes(&t.keys[k as usize]), |b| Out::Bytes(b.to_vec())),
-            Op::GetSize(k) => lift(s.get_size(&t.keys[k as usize]), Out::Size),
-            Op::Contains(k) => Out::Bool(s.contains_key(&t.keys[k as usize])),
-            Op::Len => Out::Size(s.len()),
-            Op::GetTtl(k) => lift(s.get_ttl(&t.keys[k as usize]), Out::OptU64),
-            Op::Insert { k, v, ts, ttl, bytes } => {
-                let key = &t.keys[k as usize];
-                let val = &t.values[v as usize];
-                let ts = if ts == 0 { None } else { Some(ts) };
-                let r = match (ttl > 0, bytes) {
-                    (false, false) => s.insert_with_timestamp(key, val, ts),
-                    (false, true) => s.insert_bytes_with_timestamp(key, Bytes::from(val.clone()), ts),
-                    (true, false) => s.insert_with_ttl_and_timestamp(key, val, ttl, ts),
-                    (true, true) => s.insert_bytes_with_ttl_and_timestamp(key, Bytes::from(val.clone()), ttl, ts),
-                };
-                lift(r, Out::Bool)
-            }
-            Op::Delete { k, ts } => lift(
-                s.delete_with_timestamp(&t.keys[k as usize], if ts == 0 { None } else { Some(ts) }),
-                |_| Out::Unit,
-            ),
-            Op::Cas { k, expect, new, ts, ttl } => lift(
-                s.compare_and_swap_with_timestamp_and_ttl(
-                    &t.keys[k as usize],
-                    &t.values[expect as usize],
-                    &t.values[new as usize],
-                    if ts == 0 { None } else { Some(ts) },
-                    ttl,
-                ),
-                Out::Bool,
-            ),
-            Op::Incr { k, delta, ts, ttl } => lift(
-                s.atomic_increment_with_timestamp_and_ttl(
-                    &t.keys[k as usize],
-                    delta,
-                    if ts == 0 { None } else { Some(ts) },
-                    ttl,
-                ),
-                Out::Int,
-            ),
-            Op::Ifa { k, v } => lift(s.insert_if_absent(&t.keys[k as usize], &t.values[v as usize]), Out::Bool),
-            Op::Patch { k, p, ts } => lift(
-                s.json_patch_with_timestamp(
-                    &t.keys[k as usize],
-                    &t.patches[p as usize],
-                    if ts == 0 { None } else { Some(ts) },
-                ),
-                |_| Out::Unit,
-            ),
-            Op::UpdateTtl { k, secs } => lift(s.update_ttl(&t.keys[k as usize], secs), |_| Out::Unit),
-            Op::Persist(k) => lift(s.persist(&t.keys[k as usize]), |_| Out::Unit),
-            Op::Range { lo, hi, limit } => {
-                lift(s.range_query(&t.bounds[lo as usize], &t.bounds[hi as usize], limit), Out::Pairs)
-            }
-            Op::Flush => lift(s.flush(), |_| Out::Unit),
-            Op::Sweep => {
-                let (sampled, expired) = feoxdb::core::ttl_sweep::verif_sweep_once(&store, 4096);
-                Out::Two(sampled, expired)
-            }
-            Op::Reopen | Op::Advance(_) | Op::Tick => unreachable!(),
-        }));
-        match r {
-            Ok(out) => out,
-            Err(p) => Out::Panic(panic_text(p)),
+        apply_op(&store, t, op)
+    }
+}
+
+/// Apply a store-level operation (everything except Reopen / Advance / Tick) through
+/// a shared handle; usable from several threads. Never panics.
+pub fn apply_op(store: &Arc<FeoxStore>, t: &Tables, op: &Op) -> Out {
+    let s = &**store;
+    let r = catch_unwind(AssertUnwindSafe(|| match *op {
+        Op::Get(k) => lift(s.get(&t.keys[k as usize]), Out::Bytes),
+        Op::GetBytes(k) => lift(s.get_bytes(&t.keys[k as usize]), |b| Out::Bytes(b.to_vec())),
+        Op::GetSize(k) => lift(s.get_size(&t.keys[k as usize]), Out::Size),
+        Op::Contains(k) => Out::Bool(s.contains_key(&t.keys[k as usize])),
+        Op::Len => Out::Size(s.len()),
+        Op::GetTtl(k) => lift(s.get_ttl(&t.keys[k as usize]), Out::OptU64),
+        Op::Insert { k, v, ts, ttl, bytes } => {
+            let key = &t.keys[k as usize];
+            let val = &t.values[v as usize];
+            let ts = if ts == 0 { None } else { Some(ts) };
+            let r = match (ttl > 0, bytes) {
+                (false, false) => s.insert_with_timestamp(key, val, ts),
+                (false, true) => s.insert_bytes_with_timestamp(key, Bytes::from(val.clone()), ts),
+                (true, false) => s.insert_with_ttl_and_timestamp(key, val, ttl, ts),
+                (true, true) => s.insert_bytes_with_ttl_and_timestamp(key, Bytes::from(val.clone()), ttl, ts),
+            };
+            lift(r, Out::Bool)
         }
+        Op::Delete { k, ts } => {
+            lift(s.delete_with_timestamp(&t.keys[k as usize], if ts == 0 { None } else { Some(ts) }), |_| Out::Unit)
+        }
+        Op::Cas { k, expect, new, ts, ttl } => lift(
+            s.compare_and_swap_with_timestamp_and_ttl(
+                &t.keys[k as usize],
+                &t.values[expect as usize],
+                &t.values[new as usize],
+                if ts == 0 { None } else { Some(ts) },
+                ttl,
+            ),
+            Out::Bool,
+        ),
+        Op::Incr { k, delta, ts, ttl } => lift(
+            s.atomic_increment_with_timestamp_and_ttl(&t.keys[k as usize], delta, if ts == 0 { None } else { Some(ts) }, ttl),
+            Out::Int,
+        ),
+        Op::Ifa { k, v } => lift(s.insert_if_absent(&t.keys[k as usize], &t.values[v as usize]), Out::Bool),
+        Op::Patch { k, p, ts } => lift(
+            s.json_patch_with_timestamp(&t.keys[k as usize], &t.patches[p as usize], if ts == 0 { None } else { Some(ts) }),
+            |_| Out::Unit,
+        ),
+        Op::UpdateTtl { k, secs } => lift(s.update_ttl(&t.keys[k as usize], secs), |_| Out::Unit),
+        Op::Persist(k) => lift(s.persist(&t.keys[k as usize]), |_| Out::Unit),
+        Op::Range { lo, hi, limit } => lift(s.range_query(&t.bounds[lo as usize], &t.bounds[hi as usize], limit), Out::Pairs),
+        Op::Flush => lift(s.flush(), |_| Out::Unit),
+        Op::Sweep => {
+            let (sampled, expired) = feoxdb::core::ttl_sweep::verif_sweep_once(store, 4096);
+            Out::Two(sampled, expired)
+        }
+        Op::Reopen | Op::Advance(_) | Op::Tick => Out::err("NotASharedOp"),
+    }));
+    match r {
+        Ok(out) => out,
+        Err(p) => Out::Panic(panic_text(p)),
     }
 }
 
